@@ -40,7 +40,13 @@ def check(ctx):
     caps = dict(fut[2])
     an = ctx.an(task)
     g = ctx.graph(task)
+    # the captured event stream, under whatever local name: the capture built from a kube watcher / reflector
     stream = caps.get("stream")
+    for cv in caps.values():
+        if calls_in(cv, "watcher::watcher") or calls_in(cv, "runtime::watcher") or calls_in(cv, "reflector"):
+            stream = cv
+    if stream is None:
+        stream = ("unknown", "no captured stream")
     ws = calls_in(stream, "watcher::watcher") + calls_in(stream, "runtime::watcher")
     refl = calls_in(stream, "reflector")
     ctx.check(bool(ws) or bool(refl), R, "C20/event-exhaustiveness/source", site(nb, sp[0][0]),
@@ -234,14 +240,16 @@ def check(ctx):
         ctx.check(ok, RW, "C20/single-writer/discover-snapshot", db.loc, reason="discover returns %s; expected self.inner.read().await.clone()" % render(r, maxdepth=5),
                   detail="discover = inner.read().await.clone()")
     # the task's cache is the adapter's cache
-    inner_cap = caps.get("_inner")
     ret = return_expr(nan)
     selfs = find_all(ret, lambda x: x[0] == "agg" and x[1].endswith("AgonesDiscoveryAdapter::AgonesDiscoveryAdapter"))
     same = False
-    if selfs and inner_cap is not None:
+    if selfs:
         a = [c[4] for c in calls_in(dict(selfs[0][2]).get("inner", ("unknown", "")), "Arc::<T>::new") + calls_in(dict(selfs[0][2]).get("inner", ("unknown", "")), "Arc::new")]
-        b2 = [c[4] for c in calls_in(inner_cap, "Arc::<T>::new") + calls_in(inner_cap, "Arc::new")]
-        same = bool(a) and a == b2
+        # the task captures (a clone of) that very Arc, under whatever local name
+        for cap in caps.values():
+            b2 = [c[4] for c in calls_in(cap, "Arc::<T>::new") + calls_in(cap, "Arc::new")]
+            if a and a == b2:
+                same = True
     ctx.check(same, RW, "C20/single-writer/same-cache", nb.loc, reason="the watcher task writes a different cache than discover() reads", detail="task and adapter share one Arc<RwLock<Vec<Target>>>")
 
     # ---- C20/continues-after-error
@@ -316,5 +324,25 @@ def mapping(ctx):
     muts = find_all(meta, lambda y: y[0] == "mut" and any(m.endswith("insert") for m in y[2]))
     ctx.check(bool(muts), R, "C20/mapping/meta-returned", b.loc, reason="the returned meta is not the map that was filled", detail="returned meta is the filled map")
     # the status is required
-    stt = [c for c in calls_in(r, "ok_or") if find_all(c, lambda y: y[0] == "field" and y[2] == "status")]
+    # `status.ok_or(err)?`, `ok_or_else(|| err)?`, or `let Some(status) = .. else { return Err(..) }`: the status is taken through a
+    # fallible projection whose failure leaves the function
+    stt = [c for c in calls_in(r) if flow.short(c[1]).split("::")[-1] in ("ok_or", "ok_or_else", "context", "with_context")
+           and find_all(c, lambda y: y[0] == "field" and y[2] == "status")]
+    if not stt:
+        for blk in b.blocks:
+            if blk.cleanup or blk.term.kind != "switch" or b.is_noise(blk.term):
+                continue
+            e, ls = an.switch_info(blk.idx, opt=True)
+            if find_all(e, lambda y: y[0] == "field" and y[2] == "status") and any("None" in l for l in ls.values()):
+                from .. import events
+                ev = events.extract(ctx, b)
+                g2 = ctx.graph(b)
+                starts = []
+                for tb, l in ls.items():
+                    if "None" in l:
+                        starts += g2.nodes_of_bb(tb)
+                reach = set(g2.bb(n) for n in g2.reachable(starts))
+                outs = [x for bb2, es in ev.items() if bb2 in reach for _, x, _ in es if x.startswith("ret:")]
+                if outs and all(o.startswith("ret:err") for o in outs):
+                    stt = [e]
     ctx.check(bool(stt), R, "C20/mapping/status-required", b.loc, reason="a GameServer without status is not an error", detail="missing status -> Err")
